@@ -11,14 +11,18 @@ namespace Rivaas.Compose
 
 def W (script : List Op) (t : Nat) : World := build (script.take t)
 
-theorem W_zero (script : List Op) : W script 0 = {} := by simp [W, build]
+theorem W_zero (script : List Op) : W script 0 = {} := by
+  show build (script.take 0) = {}
+  rw [List.take_zero]; rfl
 
 theorem W_succ (script : List Op) (t : Nat) (h : t < script.length) :
     W script (t + 1) = apply (W script t) script[t] := by
-  simp [W, build, List.take_add_one, List.getElem?_eq_getElem h, List.foldl_append]
+  unfold W build
+  rw [List.take_add_one, List.getElem?_eq_getElem h, Option.toList_some, List.foldl_append]
+  rfl
 
 theorem W_full (script : List Op) : W script script.length = build script := by
-  simp [W]
+  unfold W; rw [List.take_length]
 
 /-! ### `modifyAt` -/
 
@@ -48,7 +52,7 @@ theorem usesB_succ (script : List Op) (sel : Op → Option (List Hid)) (t : Nat)
     usesB script sel (t + 1) = usesB script sel t ++ (sel script[t]).getD [] := by
   simp only [usesB, List.take_add_one, List.getElem?_eq_getElem h, Option.toList_some, List.filterMap_append,
     List.flatten_append]
-  cases sel script[t] <;> simp
+  cases hs : sel script[t] <;> simp [hs]
 
 theorem usesB_zero (script : List Op) (sel : Op → Option (List Hid)) : usesB script sel 0 = [] := by
   simp [usesB]
@@ -65,5 +69,907 @@ def selUse (r : Nat) : Op → Option (List Hid) := fun op =>
   | _ => none
 
 theorem routerLevel_eq (script : List Op) (r t : Nat) : routerLevel script r t = splitAt script (selUse r) t := rfl
+
+/-! ### group classes: model side -/
+
+/-- a group class as the model stores it -/
+structure MClass where
+  C : GClass
+  get : World → List GroupSt
+  /-- the `owner` field the model stores for a root group of the class -/
+  rootOwner : World → Op → Nat
+
+/-- how `apply` acts on the objects of the class, and that the class's op kinds are disjoint -/
+structure MClass.Ok (M : MClass) : Prop where
+  law : ∀ (w : World) (op : Op),
+    M.get (apply w op) =
+      match M.C.root op with
+      | some (pre, hs) => M.get w ++ [{ owner := M.rootOwner w op, pre := pre, mw := hs }]
+      | none =>
+        match M.C.sub op with
+        | some (p, seg, hs) =>
+          (match (M.get w)[p]? with
+           | some ps => M.get w ++ [{ owner := ps.owner, pre := ps.pre ++ [seg], mw := ps.mw ++ hs }]
+           | none => M.get w)
+        | none =>
+          match M.C.useOp op with
+          | some (g, hs) => modifyAt (M.get w) g fun x => { x with mw := x.mw ++ hs }
+          | none => M.get w
+  isC_iff : ∀ op, M.C.isC op = ((M.C.root op).isSome || (M.C.sub op).isSome)
+  root_not_sub : ∀ op, (M.C.root op).isSome → M.C.sub op = none
+  create_not_use : ∀ op, M.C.isC op = true → M.C.useOp op = none
+  init : M.get {} = []
+
+/-- the script only refers to objects of the class that exist already -/
+def MClass.WF (M : MClass) (script : List Op) : Prop :=
+  ∀ t op, script[t]? = some op →
+    (∀ p seg hs, M.C.sub op = some (p, seg, hs) → p < cnt M.C.isC script t) ∧
+    (∀ g hs, M.C.useOp op = some (g, hs) → g < cnt M.C.isC script t)
+
+theorem useSel_eq (C : GClass) (g : Nat) (op : Op) :
+    C.useSel g op = match C.useOp op with
+      | some (g', hs) => if g' = g then some hs else none
+      | none => none := rfl
+
+/-- nothing was attached to a group before it existed -/
+theorem usesB_future_nil (M : MClass) (script : List Op) (hwf : M.WF script) (g t : Nat)
+    (hg : cnt M.C.isC script t ≤ g) : usesB script (M.C.useSel g) t = [] := by
+  induction t with
+  | zero => exact usesB_zero _ _
+  | succ t ih =>
+    rcases Nat.lt_or_ge t script.length with ht | ht
+    · rw [usesB_succ _ _ _ ht, ih (Nat.le_trans (cnt_mono _ _ _ _ (Nat.le_succ t)) hg)]
+      have hw := (hwf t script[t] (List.getElem?_eq_getElem ht)).2
+      rw [useSel_eq]
+      cases hu : M.C.useOp script[t] with
+      | none => rfl
+      | some gh =>
+        obtain ⟨g', hs⟩ := gh
+        have := hw g' hs hu
+        have hle := cnt_mono M.C.isC script t (t + 1) (Nat.le_succ t)
+        have : g' ≠ g := by omega
+        simp [this]
+    · have h1 : usesB script (M.C.useSel g) (t + 1) = usesB script (M.C.useSel g) t := by
+        simp [usesB, List.take_of_length_le ht, List.take_of_length_le (Nat.le_succ_of_le ht)]
+      rw [h1]
+      exact ih (by
+        have : cnt M.C.isC script (t + 1) = cnt M.C.isC script t := by
+          simp [cnt, List.take_of_length_le ht, List.take_of_length_le (Nat.le_succ_of_le ht)]
+        omega)
+
+/-- description of group `g` of the class at time `t`, created by op `i` -/
+def GDesc (M : MClass) (script : List Op) (i : Nat) (op : Op) (g t : Nat) (gs : GroupSt) : Prop :=
+  match M.C.root op with
+  | some (pre, hs) =>
+    gs = { owner := M.rootOwner (W script i) op, pre := pre, mw := hs ++ usesB script (M.C.useSel g) t }
+  | none =>
+    match M.C.sub op with
+    | some (p, seg, hs) =>
+      ∃ ps, (M.get (W script i))[p]? = some ps ∧
+        gs = { owner := ps.owner, pre := ps.pre ++ [seg], mw := ps.mw ++ hs ++ usesB script (M.C.useSel g) t }
+    | none => False
+
+def GInv (M : MClass) (script : List Op) (t : Nat) : Prop :=
+  (M.get (W script t)).length = cnt M.C.isC script t ∧
+  ∀ g gs, (M.get (W script t))[g]? = some gs →
+    ∃ i op, script[i]? = some op ∧ i < t ∧ cnt M.C.isC script i = g ∧ M.C.isC op = true ∧ GDesc M script i op g t gs
+
+theorem gdesc_step (M : MClass) (script : List Op) (i : Nat) (op : Op) (g t : Nat) (gs : GroupSt) (add : List Hid)
+    (h : GDesc M script i op g t gs)
+    (hu : usesB script (M.C.useSel g) (t + 1) = usesB script (M.C.useSel g) t ++ add) :
+    GDesc M script i op g (t + 1) { gs with mw := gs.mw ++ add } := by
+  unfold GDesc at *
+  cases hr : M.C.root op with
+  | some ph =>
+    obtain ⟨pre, hs⟩ := ph
+    rw [hr] at h
+    simp only [] at h ⊢
+    rw [h, hu]; simp
+  | none =>
+    rw [hr] at h
+    simp only [] at h ⊢
+    cases hsb : M.C.sub op with
+    | none => rw [hsb] at h; exact h
+    | some x =>
+      obtain ⟨p, seg, hs⟩ := x
+      rw [hsb] at h
+      simp only [] at h ⊢
+      obtain ⟨ps, h1, h2⟩ := h
+      exact ⟨ps, h1, by rw [h2, hu]; simp⟩
+
+theorem ginv (M : MClass) (hok : M.Ok) (script : List Op) (hwf : M.WF script) :
+    ∀ t, t ≤ script.length → GInv M script t := by
+  intro t
+  induction t with
+  | zero =>
+    intro _
+    refine ⟨by rw [W_zero, hok.init]; simp [cnt], ?_⟩
+    intro g gs h
+    rw [W_zero, hok.init] at h
+    simp at h
+  | succ t ih =>
+    intro ht
+    have htl : t < script.length := ht
+    obtain ⟨hlen, hdesc⟩ := ih (Nat.le_of_lt htl)
+    have hget : script[t]? = some script[t] := List.getElem?_eq_getElem htl
+    have hcnt := cnt_succ M.C.isC script t htl
+    have hlaw := hok.law (W script t) script[t]
+    rw [← W_succ script t htl] at hlaw
+    have hwft := hwf t script[t] hget
+    -- old groups keep their description when the op does not attach to them
+    have hold : ∀ g gs, (M.get (W script t))[g]? = some gs → M.C.useSel g script[t] = none →
+        ∃ i op, script[i]? = some op ∧ i < t + 1 ∧ cnt M.C.isC script i = g ∧ M.C.isC op = true ∧
+          GDesc M script i op g (t + 1) gs := by
+      intro g gs hg hnone
+      obtain ⟨i, op, h1, h2, h3, h4, h5⟩ := hdesc g gs hg
+      refine ⟨i, op, h1, by omega, h3, h4, ?_⟩
+      have := gdesc_step M script i op g t gs [] h5 (by rw [usesB_succ _ _ _ htl, hnone]; rfl)
+      simpa using this
+    -- a freshly created group
+    have hnew : ∀ gs, GDesc M script t script[t] (cnt M.C.isC script t) t gs → M.C.isC script[t] = true →
+        ∃ i op, script[i]? = some op ∧ i < t + 1 ∧ cnt M.C.isC script i = cnt M.C.isC script t ∧ M.C.isC op = true ∧
+          GDesc M script i op (cnt M.C.isC script t) (t + 1) gs := by
+      intro gs hd hc
+      refine ⟨t, script[t], hget, by omega, rfl, hc, ?_⟩
+      have hu : usesB script (M.C.useSel (cnt M.C.isC script t)) (t + 1) =
+          usesB script (M.C.useSel (cnt M.C.isC script t)) t ++ [] := by
+        rw [usesB_succ _ _ _ htl, useSel_eq, hok.create_not_use _ hc]; rfl
+      have := gdesc_step M script t script[t] _ t gs [] hd hu
+      simpa using this
+    have hfut := usesB_future_nil M script hwf (cnt M.C.isC script t) t (Nat.le_refl _)
+    cases hr : M.C.root script[t] with
+    | some ph =>
+      obtain ⟨pre, hs⟩ := ph
+      have hc : M.C.isC script[t] = true := by rw [hok.isC_iff, hr]; rfl
+      have huse : ∀ g, M.C.useSel g script[t] = none := by
+        intro g; rw [useSel_eq, hok.create_not_use _ hc]
+      rw [hr] at hlaw
+      simp only [] at hlaw
+      refine ⟨by rw [hlaw, hcnt, hc]; simp [hlen], ?_⟩
+      intro g gs hg
+      rw [hlaw] at hg
+      rcases Nat.lt_or_ge g (M.get (W script t)).length with hlt | hge
+      · rw [List.getElem?_append_left hlt] at hg
+        exact hold g gs hg (huse g)
+      · rw [List.getElem?_append_right hge] at hg
+        have hg0 : g = (M.get (W script t)).length := by
+          rcases Nat.eq_or_lt_of_le hge with h | h
+          · exact h.symm
+          · have : g - (M.get (W script t)).length ≠ 0 := by omega
+            cases hx : g - (M.get (W script t)).length with
+            | zero => omega
+            | succ k => rw [hx] at hg; simp at hg
+        subst hg0
+        simp at hg
+        rw [hlen]
+        apply hnew gs _ hc
+        unfold GDesc
+        rw [hr]
+        simp only []
+        rw [hfut, ← hg]; simp
+    | none =>
+      rw [hr] at hlaw
+      simp only [] at hlaw
+      cases hsb : M.C.sub script[t] with
+      | some x =>
+        obtain ⟨p, seg, hs⟩ := x
+        have hc : M.C.isC script[t] = true := by rw [hok.isC_iff, hr, hsb]; rfl
+        have huse : ∀ g, M.C.useSel g script[t] = none := by
+          intro g; rw [useSel_eq, hok.create_not_use _ hc]
+        rw [hsb] at hlaw
+        simp only [] at hlaw
+        have hp : p < (M.get (W script t)).length := by rw [hlen]; exact hwft.1 p seg hs hsb
+        obtain ⟨ps, hps⟩ : ∃ ps, (M.get (W script t))[p]? = some ps := ⟨_, List.getElem?_eq_getElem hp⟩
+        rw [hps] at hlaw
+        simp only [] at hlaw
+        refine ⟨by rw [hlaw, hcnt, hc]; simp [hlen], ?_⟩
+        intro g gs hg
+        rw [hlaw] at hg
+        rcases Nat.lt_or_ge g (M.get (W script t)).length with hlt | hge
+        · rw [List.getElem?_append_left hlt] at hg
+          exact hold g gs hg (huse g)
+        · rw [List.getElem?_append_right hge] at hg
+          have hg0 : g = (M.get (W script t)).length := by
+            cases hx : g - (M.get (W script t)).length with
+            | zero => omega
+            | succ k => rw [hx] at hg; simp at hg
+          subst hg0
+          simp at hg
+          rw [hlen]
+          apply hnew gs _ hc
+          unfold GDesc
+          rw [hr]
+          simp only []
+          rw [hsb]
+          simp only []
+          exact ⟨ps, hps, by rw [hfut, ← hg]; simp⟩
+      | none =>
+        rw [hsb] at hlaw
+        simp only [] at hlaw
+        have hc : M.C.isC script[t] = false := by rw [hok.isC_iff, hr, hsb]; rfl
+        cases hu : M.C.useOp script[t] with
+        | some gh =>
+          obtain ⟨g0, hs0⟩ := gh
+          rw [hu] at hlaw
+          simp only [] at hlaw
+          refine ⟨by rw [hlaw, modifyAt_length, hcnt, hc]; simp [hlen], ?_⟩
+          intro g gs hg
+          rw [hlaw, modifyAt_getElem?] at hg
+          by_cases hgg : g0 = g
+          · subst hgg
+            simp only [if_true] at hg
+            cases hold' : (M.get (W script t))[g0]? with
+            | none => rw [hold'] at hg; simp at hg
+            | some gs' =>
+              rw [hold'] at hg
+              simp at hg
+              obtain ⟨i, op, h1, h2, h3, h4, h5⟩ := hdesc g0 gs' hold'
+              refine ⟨i, op, h1, by omega, h3, h4, ?_⟩
+              have hu' : usesB script (M.C.useSel g0) (t + 1) = usesB script (M.C.useSel g0) t ++ hs0 := by
+                rw [usesB_succ _ _ _ htl, useSel_eq, hu]; simp
+              have := gdesc_step M script i op g0 t gs' hs0 h5 hu'
+              rw [← hg]; exact this
+          · simp only [hgg, if_false] at hg
+            exact hold g gs hg (by rw [useSel_eq, hu]; simp [hgg])
+        | none =>
+          rw [hu] at hlaw
+          simp only [] at hlaw
+          refine ⟨by rw [hlaw, hcnt, hc]; simp [hlen], ?_⟩
+          intro g gs hg
+          rw [hlaw] at hg
+          exact hold g gs hg (by rw [useSel_eq, hu])
+
+/-! ### the three instances -/
+
+/-- only the routers differ -/
+def SameRest (w w' : World) : Prop :=
+  w'.groups = w.groups ∧ w'.agroups = w.agroups ∧ w'.avgroups = w.avgroups ∧ w'.vrouters = w.vrouters ∧
+  w'.vgroups = w.vgroups
+
+theorem SameRest.refl (w : World) : SameRest w w := ⟨rfl, rfl, rfl, rfl, rfl⟩
+
+theorem SameRest.trans {a b c : World} (h1 : SameRest a b) (h2 : SameRest b c) : SameRest a c :=
+  ⟨h2.1.trans h1.1, h2.2.1.trans h1.2.1, h2.2.2.1.trans h1.2.2.1, h2.2.2.2.1.trans h1.2.2.2.1,
+    h2.2.2.2.2.trans h1.2.2.2.2⟩
+
+theorem addRouteOn_same (w : World) (r : Nat) (rt : RouteRec) : SameRest w (w.addRouteOn r rt) :=
+  ⟨rfl, rfl, rfl, rfl, rfl⟩
+
+theorem foldl_same {α} (l : List α) (g : World → α → World) (hg : ∀ w a, SameRest w (g w a)) (w : World) :
+    SameRest w (l.foldl g w) := by
+  induction l generalizing w with
+  | nil => exact SameRest.refl w
+  | cons a l ih => exact (hg w a).trans (ih (g w a))
+
+theorem mountOp_same (w : World) (p sub seg : Nat) (inh : Bool) (extra : List Hid) :
+    SameRest w (mountOp w p sub seg inh extra) := by
+  unfold mountOp
+  cases w.routers[p]? with
+  | none => exact SameRest.refl w
+  | some pr =>
+    cases w.routers[sub]? with
+    | none => exact SameRest.refl w
+    | some sr =>
+      simp only []
+      have h1 := foldl_same sr.pending
+        (fun w rt => w.addRouteOn p { ver := none, path := seg :: rt.path,
+                                      hs := ((if inh then pr.mw else []) ++ sr.mw ++ extra) ++ rt.hs })
+        (fun w rt => addRouteOn_same w p _) w
+      by_cases hc : (sr.hasInfo && sr.pending.isEmpty) = true
+      · simp only [hc, if_true]
+        exact h1.trans (foldl_same _ _ (fun w rt => addRouteOn_same w p _) _)
+      · simp only [hc]
+        exact h1
+
+def groupM : MClass where
+  C := groupC
+  get := (·.groups)
+  rootOwner := fun _ op => match op with | .group r _ _ => r | _ => 0
+
+def agroupM : MClass where
+  C := agroupC
+  get := (·.agroups)
+  rootOwner := fun _ _ => 0
+
+def avgroupM : MClass where
+  C := avgroupC
+  get := (·.avgroups)
+  rootOwner := fun w _ => w.vrouters.length
+
+theorem groupM_ok : groupM.Ok where
+  law := by
+    intro w op
+    cases op <;> simp [groupM, groupC, apply, World.addRouteOn, (mountOp_same ..).1]
+    case subgroup g seg hs => cases w.groups[g]? <;> rfl
+    case route o seg hs =>
+      cases o <;> simp
+      case group g => cases w.groups[g]? <;> rfl
+      case vrouter v => cases w.vrouters[v]? <;> rfl
+      case vgroup vg =>
+        cases hv : w.vgroups[vg]? <;> simp
+        rename_i p
+        cases w.vrouters[p.owner]? <;> rfl
+    case asubgroup g seg hs => cases w.agroups[g]? <;> rfl
+    case avsubgroup g seg hs => cases w.avgroups[g]? <;> rfl
+    case aroute o seg b h a =>
+      cases o <;> simp
+      case agroup g => cases w.agroups[g]? <;> rfl
+      case avgroup vg =>
+        cases hv : w.avgroups[vg]? <;> simp
+        rename_i p
+        cases w.vrouters[p.owner]? <;> rfl
+  isC_iff := by intro op; cases op <;> rfl
+  root_not_sub := by intro op; cases op <;> simp [groupM, groupC]
+  create_not_use := by intro op; cases op <;> simp [groupM, groupC, isGroupCreate]
+  init := rfl
+
+theorem agroupM_ok : agroupM.Ok where
+  law := by
+    intro w op
+    cases op <;> simp [agroupM, agroupC, apply, World.addRouteOn, (mountOp_same ..).2.1]
+    case subgroup g seg hs => cases w.groups[g]? <;> rfl
+    case route o seg hs =>
+      cases o <;> simp
+      case group g => cases w.groups[g]? <;> rfl
+      case vrouter v => cases w.vrouters[v]? <;> rfl
+      case vgroup vg =>
+        cases hv : w.vgroups[vg]? <;> simp
+        rename_i p
+        cases w.vrouters[p.owner]? <;> rfl
+    case asubgroup g seg hs => cases w.agroups[g]? <;> rfl
+    case avsubgroup g seg hs => cases w.avgroups[g]? <;> rfl
+    case aroute o seg b h a =>
+      cases o <;> simp
+      case agroup g => cases w.agroups[g]? <;> rfl
+      case avgroup vg =>
+        cases hv : w.avgroups[vg]? <;> simp
+        rename_i p
+        cases w.vrouters[p.owner]? <;> rfl
+  isC_iff := by intro op; cases op <;> rfl
+  root_not_sub := by intro op; cases op <;> simp [agroupM, agroupC]
+  create_not_use := by intro op; cases op <;> simp [agroupM, agroupC, isAGroupCreate]
+  init := rfl
+
+theorem avgroupM_ok : avgroupM.Ok where
+  law := by
+    intro w op
+    cases op <;> simp [avgroupM, avgroupC, apply, World.addRouteOn, (mountOp_same ..).2.2.1]
+    case subgroup g seg hs => cases w.groups[g]? <;> rfl
+    case route o seg hs =>
+      cases o <;> simp
+      case group g => cases w.groups[g]? <;> rfl
+      case vrouter v => cases w.vrouters[v]? <;> rfl
+      case vgroup vg =>
+        cases hv : w.vgroups[vg]? <;> simp
+        rename_i p
+        cases w.vrouters[p.owner]? <;> rfl
+    case asubgroup g seg hs => cases w.agroups[g]? <;> rfl
+    case avsubgroup g seg hs => cases w.avgroups[g]? <;> rfl
+    case aroute o seg b h a =>
+      cases o <;> simp
+      case agroup g => cases w.agroups[g]? <;> rfl
+      case avgroup vg =>
+        cases hv : w.avgroups[vg]? <;> simp
+        rename_i p
+        cases w.vrouters[p.owner]? <;> rfl
+  isC_iff := by intro op; cases op <;> rfl
+  root_not_sub := by intro op; cases op <;> simp [avgroupM, avgroupC]
+  create_not_use := by intro op; cases op <;> simp [avgroupM, avgroupC, isAVGroupCreate]
+  init := rfl
+
+/-! ### bridging the model's groups to the oracle's `genLevels` -/
+
+theorem genLevels_fuel_mono (C : GClass) (script : List Op) :
+    ∀ (f f' g t : Nat) (x : Nat × Path × List Level), genLevels C script f g t = some x → f ≤ f' →
+      genLevels C script f' g t = some x := by
+  intro f
+  induction f with
+  | zero => intro f' g t x h; simp [genLevels] at h
+  | succ f ih =>
+    intro f' g t x h hle
+    obtain ⟨f'', rfl⟩ : ∃ f'', f' = f'' + 1 := ⟨f' - 1, by omega⟩
+    simp only [genLevels] at h ⊢
+    cases hi : nthIdx script C.isC g with
+    | none => simp [hi] at h
+    | some i =>
+      simp only [hi, Option.bind_eq_bind, Option.bind_some] at h ⊢
+      cases hop : script[i]? with
+      | none => simp [hop] at h
+      | some op =>
+        simp only [hop, Option.bind_some] at h ⊢
+        cases hr : C.root op with
+        | some ph => simp only [hr] at h ⊢; exact h
+        | none =>
+          simp only [hr] at h ⊢
+          cases hsb : C.sub op with
+          | none => simp only [hsb] at h ⊢; exact h
+          | some x' =>
+            obtain ⟨p, seg, hs⟩ := x'
+            simp only [hsb] at h ⊢
+            cases hrec : genLevels C script f p i with
+            | none => simp [hrec] at h
+            | some y =>
+              rw [ih f'' p i y hrec (by omega)]
+              rw [hrec] at h
+              exact h
+
+/-- what the oracle's levels say about a model group: same prefix, and the model's middleware slice
+    is exactly the `must` parts; plus where the root ancestor was created -/
+theorem genLevels_of_model (M : MClass) (hok : M.Ok) (script : List Op) (hwf : M.WF script) :
+    ∀ (g t : Nat) (gs : GroupSt), t ≤ script.length → (M.get (W script t))[g]? = some gs →
+      ∃ ri rop ls, genLevels M.C script (g + 1) g t = some (ri, gs.pre, ls) ∧
+        gs.mw = (ls.map (·.1)).flatten ∧
+        script[ri]? = some rop ∧ (M.C.root rop).isSome ∧ gs.owner = M.rootOwner (W script ri) rop := by
+  intro g
+  induction g using Nat.strongRecOn with
+  | _ g ih =>
+    intro t gs ht hg
+    obtain ⟨_, hdesc⟩ := ginv M hok script hwf t ht
+    obtain ⟨i, op, hop, hit, hcnt, hc, hd⟩ := hdesc g gs hg
+    have hil : i < script.length := by
+      rcases Nat.lt_or_ge i script.length with h | h
+      · exact h
+      · rw [List.getElem?_eq_none h] at hop; cases hop
+    have hopi : script[i] = op := by
+      have := List.getElem?_eq_getElem hil
+      rw [this] at hop; exact Option.some.inj hop
+    have hnth : nthIdx script M.C.isC g = some i := by
+      have := nthIdx_of_created M.C.isC script i hil (by rw [hopi]; exact hc)
+      rw [hcnt] at this; exact this
+    unfold GDesc at hd
+    simp only [genLevels, hnth, Option.bind_eq_bind, Option.bind_some, hop]
+    cases hr : M.C.root op with
+    | some ph =>
+      obtain ⟨pre, hs⟩ := ph
+      rw [hr] at hd
+      simp only [] at hd ⊢
+      refine ⟨i, op, [(hs ++ (splitAt script (M.C.useSel g) t).1, (splitAt script (M.C.useSel g) t).2)],
+        ?_, ?_, hop, by rw [hr]; rfl, by rw [hd]⟩
+      · rw [hd]; rfl
+      · rw [hd]; simp [splitAt_fst]
+    | none =>
+      rw [hr] at hd
+      simp only [] at hd ⊢
+      cases hsb : M.C.sub op with
+      | none => rw [hsb] at hd; exact hd.elim
+      | some x =>
+        obtain ⟨p, seg, hs⟩ := x
+        rw [hsb] at hd
+        simp only [] at hd ⊢
+        obtain ⟨ps, hps, hgs⟩ := hd
+        have hpg : p < g := by
+          have := (hwf i op hop).1 p seg hs hsb
+          omega
+        obtain ⟨ri, rop, ls, h1, h2, h3, h4, h5⟩ := ih p hpg i ps (Nat.le_of_lt hil) hps
+        have h1' := genLevels_fuel_mono M.C script (p + 1) g p i _ h1 (by omega)
+        rw [h1']
+        simp only [Option.bind_some]
+        refine ⟨ri, rop, ls ++ [(hs ++ (splitAt script (M.C.useSel g) t).1, (splitAt script (M.C.useSel g) t).2)],
+          ?_, ?_, h3, h4, by rw [hgs]; exact h5⟩
+        · rw [hgs]; rfl
+        · rw [hgs]; simp [splitAt_fst, h2]
+
+/-! ### append-only classes (version routers, router version groups) -/
+
+structure AClass (α : Type) where
+  isC : Op → Bool
+  get : World → List α
+  make : World → Op → Option α
+
+structure AClass.Ok {α} (A : AClass α) : Prop where
+  law : ∀ w op, A.get (apply w op) = match A.make w op with | some x => A.get w ++ [x] | none => A.get w
+  isC_iff : ∀ w op, A.isC op = (A.make w op).isSome
+  init : A.get {} = []
+
+theorem ainv {α} (A : AClass α) (hok : A.Ok) (script : List Op) :
+    ∀ t, t ≤ script.length →
+      (A.get (W script t)).length = cnt A.isC script t ∧
+      ∀ k x, (A.get (W script t))[k]? = some x →
+        ∃ i op, script[i]? = some op ∧ i < t ∧ cnt A.isC script i = k ∧ A.make (W script i) op = some x := by
+  intro t
+  induction t with
+  | zero =>
+    intro _
+    rw [W_zero, hok.init]
+    exact ⟨by simp [cnt], by intro k x h; simp at h⟩
+  | succ t ih =>
+    intro ht
+    have htl : t < script.length := ht
+    obtain ⟨hlen, hdesc⟩ := ih (Nat.le_of_lt htl)
+    have hget : script[t]? = some script[t] := List.getElem?_eq_getElem htl
+    have hcnt := cnt_succ A.isC script t htl
+    have hlaw := hok.law (W script t) script[t]
+    rw [← W_succ script t htl] at hlaw
+    have hc := hok.isC_iff (W script t) script[t]
+    cases hm : A.make (W script t) script[t] with
+    | none =>
+      rw [hm] at hlaw hc
+      simp only [] at hlaw
+      refine ⟨by rw [hlaw, hcnt, hc]; simp [hlen], ?_⟩
+      intro k x hk
+      rw [hlaw] at hk
+      obtain ⟨i, op, h1, h2, h3, h4⟩ := hdesc k x hk
+      exact ⟨i, op, h1, by omega, h3, h4⟩
+    | some y =>
+      rw [hm] at hlaw hc
+      simp only [] at hlaw
+      refine ⟨by rw [hlaw, hcnt, hc]; simp [hlen], ?_⟩
+      intro k x hk
+      rw [hlaw] at hk
+      rcases Nat.lt_or_ge k (A.get (W script t)).length with hlt | hge
+      · rw [List.getElem?_append_left hlt] at hk
+        obtain ⟨i, op, h1, h2, h3, h4⟩ := hdesc k x hk
+        exact ⟨i, op, h1, by omega, h3, h4⟩
+      · rw [List.getElem?_append_right hge] at hk
+        have hk0 : k = (A.get (W script t)).length := by
+          cases hx : k - (A.get (W script t)).length with
+          | zero => omega
+          | succ j => rw [hx] at hk; simp at hk
+        subst hk0
+        simp at hk
+        exact ⟨t, script[t], hget, by omega, hlen.symm, by rw [hm, hk]⟩
+
+/-- a creating op is determined by how many creating ops precede it -/
+theorem cnt_inj (isC : Op → Bool) (script : List Op) (i j : Nat) (opi opj : Op)
+    (hi : script[i]? = some opi) (hj : script[j]? = some opj) (hci : isC opi = true) (hcj : isC opj = true)
+    (h : cnt isC script i = cnt isC script j) : i = j := by
+  have key : ∀ a b oa, script[a]? = some oa → isC oa = true → a < b → cnt isC script a < cnt isC script b := by
+    intro a b oa ha hca hab
+    have hal : a < script.length := by
+      rcases Nat.lt_or_ge a script.length with h' | h'
+      · exact h'
+      · rw [List.getElem?_eq_none h'] at ha; cases ha
+    have hoa : script[a] = oa := by
+      have := List.getElem?_eq_getElem hal
+      rw [this] at ha; exact Option.some.inj ha
+    have h1 := cnt_succ isC script a hal
+    rw [hoa, hca] at h1
+    have h2 := cnt_mono isC script (a + 1) b hab
+    simp at h1
+    omega
+  rcases Nat.lt_trichotomy i j with hlt | heq | hgt
+  · have := key i j opi hi hci hlt; omega
+  · exact heq
+  · have := key j i opj hj hcj hgt; omega
+
+def vrouterA : AClass (Nat × Nat) where
+  isC := isVRouterCreate
+  get := (·.vrouters)
+  make := fun _ op => match op with | .version r ver => some (r, ver) | .aversion ver => some (0, ver) | _ => none
+
+def vgroupA : AClass GroupSt where
+  isC := isVGroupCreate
+  get := (·.vgroups)
+  make := fun _ op => match op with | .vgroup v seg hs => some { owner := v, pre := [seg], mw := hs } | _ => none
+
+theorem vrouterA_ok : vrouterA.Ok where
+  law := by
+    intro w op
+    cases op <;> simp [vrouterA, apply, World.addRouteOn, (mountOp_same ..).2.2.2.1]
+    case subgroup g seg hs => cases w.groups[g]? <;> rfl
+    case route o seg hs =>
+      cases o <;> simp
+      case group g => cases w.groups[g]? <;> rfl
+      case vrouter v => cases w.vrouters[v]? <;> rfl
+      case vgroup vg =>
+        cases hv : w.vgroups[vg]? <;> simp
+        rename_i p
+        cases w.vrouters[p.owner]? <;> rfl
+    case asubgroup g seg hs => cases w.agroups[g]? <;> rfl
+    case avsubgroup g seg hs => cases w.avgroups[g]? <;> rfl
+    case aroute o seg b h a =>
+      cases o <;> simp
+      case agroup g => cases w.agroups[g]? <;> rfl
+      case avgroup vg =>
+        cases hv : w.avgroups[vg]? <;> simp
+        rename_i p
+        cases w.vrouters[p.owner]? <;> rfl
+  isC_iff := by intro w op; cases op <;> rfl
+  init := rfl
+
+theorem vgroupA_ok : vgroupA.Ok where
+  law := by
+    intro w op
+    cases op <;> simp [vgroupA, apply, World.addRouteOn, (mountOp_same ..).2.2.2.2]
+    case subgroup g seg hs => cases w.groups[g]? <;> rfl
+    case route o seg hs =>
+      cases o <;> simp
+      case group g => cases w.groups[g]? <;> rfl
+      case vrouter v => cases w.vrouters[v]? <;> rfl
+      case vgroup vg =>
+        cases hv : w.vgroups[vg]? <;> simp
+        rename_i p
+        cases w.vrouters[p.owner]? <;> rfl
+    case asubgroup g seg hs => cases w.agroups[g]? <;> rfl
+    case avsubgroup g seg hs => cases w.avgroups[g]? <;> rfl
+    case aroute o seg b h a =>
+      cases o <;> simp
+      case agroup g => cases w.agroups[g]? <;> rfl
+      case avgroup vg =>
+        cases hv : w.avgroups[vg]? <;> simp
+        rename_i p
+        cases w.vrouters[p.owner]? <;> rfl
+  isC_iff := by intro w op; cases op <;> rfl
+  init := rfl
+
+/-! ### routers and their routes -/
+
+/-- the route record a declaring op hands to `addRouteOn`, and on which router -/
+def routeRecOf (w : World) : Op → Option (Nat × RouteRec)
+  | .route (.router r) seg hs => some (r, { ver := none, path := [seg], hs := hs })
+  | .route (.group g) seg hs =>
+    (w.groups[g]?).map fun p => (p.owner, { ver := none, path := p.pre ++ [seg], hs := p.mw ++ hs })
+  | .route (.vrouter v) seg hs =>
+    (w.vrouters[v]?).map fun x => (x.1, { ver := some x.2, path := [seg], hs := hs })
+  | .route (.vgroup vg) seg hs =>
+    (w.vgroups[vg]?).bind fun p =>
+      (w.vrouters[p.owner]?).map fun x => (x.1, { ver := some x.2, path := p.pre ++ [seg], hs := p.mw ++ hs })
+  | .aroute .app seg b h a => some (0, { ver := none, path := [seg], hs := b ++ [h] ++ a })
+  | .aroute (.agroup g) seg b h a =>
+    (w.agroups[g]?).map fun p => (0, { ver := none, path := p.pre ++ [seg], hs := p.mw ++ (b ++ [h] ++ a) })
+  | .aroute (.avgroup vg) seg b h a =>
+    (w.avgroups[vg]?).bind fun p =>
+      (w.vrouters[p.owner]?).map fun x =>
+        (x.1, { ver := some x.2, path := p.pre ++ [seg], hs := p.mw ++ (b ++ [h] ++ a) })
+  | _ => none
+
+/-- how one op changes the list of routers (everything but `Mount`) -/
+inductive RStep (w : World) (op : Op) (rs' : List RouterSt) : Prop
+  | new : op = .newRouter → rs' = w.routers ++ [({} : RouterSt)] → RStep w op rs'
+  | use (r : Nat) (hs : List Hid) : selUse r op = some hs → (∀ r', r' ≠ r → selUse r' op = none) →
+      rs' = modifyAt w.routers r (fun x => { x with mw := x.mw ++ hs }) → routeRecOf w op = none → RStep w op rs'
+  | warm (r : Nat) : op = .warmup r → rs' = modifyAt w.routers r warmup → RStep w op rs'
+  | route (r : Nat) (rec : RouteRec) : routeRecOf w op = some (r, rec) → (∀ r', selUse r' op = none) →
+      rs' = modifyAt w.routers r (addRoute · rec) → RStep w op rs'
+  | same : routeRecOf w op = none → (∀ r', selUse r' op = none) → op ≠ .newRouter → (∀ r, op ≠ .warmup r) →
+      rs' = w.routers → RStep w op rs'
+
+def isMount : Op → Bool | .mount .. => true | _ => false
+
+theorem rstep (w : World) (op : Op) (hm : isMount op = false) : RStep w op (apply w op).routers := by
+  cases op with
+  | newRouter => exact .new rfl rfl
+  | use r hs =>
+    refine .use r hs (by simp [selUse]) ?_ rfl rfl
+    intro r' hr'; simp [selUse]; exact fun h => (hr' h.symm).elim
+  | ause hs =>
+    refine .use 0 hs (by simp [selUse]) ?_ rfl rfl
+    intro r' hr'; simp [selUse]; exact hr'
+  | warmup r => exact .warm r rfl rfl
+  | mount => simp [isMount] at hm
+  | group r seg hs => exact .same rfl (fun _ => rfl) (by simp) (by simp) rfl
+  | guse g hs => exact .same rfl (fun _ => rfl) (by simp) (by simp) rfl
+  | version r v => exact .same rfl (fun _ => rfl) (by simp) (by simp) rfl
+  | vgroup v seg hs => exact .same rfl (fun _ => rfl) (by simp) (by simp) rfl
+  | agroup seg hs a c => exact .same rfl (fun _ => rfl) (by simp) (by simp) rfl
+  | aguse g hs => exact .same rfl (fun _ => rfl) (by simp) (by simp) rfl
+  | aversion v => exact .same rfl (fun _ => rfl) (by simp) (by simp) rfl
+  | avuse g hs => exact .same rfl (fun _ => rfl) (by simp) (by simp) rfl
+  | subgroup g seg hs =>
+    refine .same rfl (fun _ => rfl) (by simp) (by simp) ?_
+    simp only [apply]; cases w.groups[g]? <;> rfl
+  | asubgroup g seg hs =>
+    refine .same rfl (fun _ => rfl) (by simp) (by simp) ?_
+    simp only [apply]; cases w.agroups[g]? <;> rfl
+  | avsubgroup g seg hs =>
+    refine .same rfl (fun _ => rfl) (by simp) (by simp) ?_
+    simp only [apply]; cases w.avgroups[g]? <;> rfl
+  | route o seg hs =>
+    cases o with
+    | router r => exact .route r { ver := none, path := [seg], hs := hs } rfl (fun _ => rfl) rfl
+    | group g =>
+      cases hg : w.groups[g]? with
+      | none => exact .same (by simp [routeRecOf, hg]) (fun _ => rfl) (by simp) (by simp) (by simp [apply, hg])
+      | some p => exact .route p.owner { ver := none, path := p.pre ++ [seg], hs := p.mw ++ hs } (by simp [routeRecOf, hg]) (fun _ => rfl) (by simp [apply, hg, World.addRouteOn])
+    | vrouter v =>
+      cases hv : w.vrouters[v]? with
+      | none => exact .same (by simp [routeRecOf, hv]) (fun _ => rfl) (by simp) (by simp) (by simp [apply, hv])
+      | some x =>
+        obtain ⟨r, ver⟩ := x
+        exact .route r { ver := some ver, path := [seg], hs := hs } (by simp [routeRecOf, hv]) (fun _ => rfl) (by simp [apply, hv, World.addRouteOn])
+    | vgroup vg =>
+      cases hg : w.vgroups[vg]? with
+      | none => exact .same (by simp [routeRecOf, hg]) (fun _ => rfl) (by simp) (by simp) (by simp [apply, hg])
+      | some p =>
+        cases hv : w.vrouters[p.owner]? with
+        | none => exact .same (by simp [routeRecOf, hg, hv]) (fun _ => rfl) (by simp) (by simp) (by simp [apply, hg, hv])
+        | some x =>
+          obtain ⟨r, ver⟩ := x
+          exact .route r { ver := some ver, path := p.pre ++ [seg], hs := p.mw ++ hs } (by simp [routeRecOf, hg, hv]) (fun _ => rfl) (by simp [apply, hg, hv, World.addRouteOn])
+  | aroute o seg b h a =>
+    cases o with
+    | app => exact .route 0 { ver := none, path := [seg], hs := b ++ [h] ++ a } rfl (fun _ => rfl) rfl
+    | agroup g =>
+      cases hg : w.agroups[g]? with
+      | none => exact .same (by simp [routeRecOf, hg]) (fun _ => rfl) (by simp) (by simp) (by simp [apply, hg])
+      | some p => exact .route 0 { ver := none, path := p.pre ++ [seg], hs := p.mw ++ (b ++ [h] ++ a) } (by simp [routeRecOf, hg]) (fun _ => rfl) (by simp [apply, hg, World.addRouteOn])
+    | avgroup vg =>
+      cases hg : w.avgroups[vg]? with
+      | none => exact .same (by simp [routeRecOf, hg]) (fun _ => rfl) (by simp) (by simp) (by simp [apply, hg])
+      | some p =>
+        cases hv : w.vrouters[p.owner]? with
+        | none => exact .same (by simp [routeRecOf, hg, hv]) (fun _ => rfl) (by simp) (by simp) (by simp [apply, hg, hv])
+        | some x =>
+          obtain ⟨r, ver⟩ := x
+          exact .route r { ver := some ver, path := p.pre ++ [seg], hs := p.mw ++ (b ++ [h] ++ a) } (by simp [routeRecOf, hg, hv]) (fun _ => rfl) (by simp [apply, hg, hv, World.addRouteOn])
+
+def isNewRouter : Op → Bool | .newRouter => true | _ => false
+
+/-- the node `RegisterRoute` writes when it runs at time `treg` -/
+def regRec (script : List Op) (r treg : Nat) (rec0 : RouteRec) : RouteRec :=
+  { rec0 with hs := usesB script (selUse r) treg ++ rec0.hs }
+
+structure RInvAt (script : List Op) (t r : Nat) (rs : RouterSt) : Prop where
+  mw : rs.mw = usesB script (selUse r) t
+  pend : ∀ rec ∈ rs.pending, ∃ i op, script[i]? = some op ∧ i < t ∧ routeRecOf (W script i) op = some (r, rec)
+  tree : ∀ rec ∈ rs.tree, ∃ i op rec0 treg, script[i]? = some op ∧ i < t ∧ i ≤ treg ∧ treg ≤ t ∧
+    routeRecOf (W script i) op = some (r, rec0) ∧ rec = regRec script r treg rec0
+  pres : ∀ i op rec0, script[i]? = some op → i < t → routeRecOf (W script i) op = some (r, rec0) →
+    r < (W script i).routers.length →
+    rec0 ∈ rs.pending ∨ ∃ treg, i ≤ treg ∧ treg ≤ t ∧ regRec script r treg rec0 ∈ rs.tree
+  warmed : rs.warmed = true → rs.pending = []
+
+def RInv (script : List Op) (t : Nat) : Prop :=
+  (W script t).routers.length = 1 + cnt isNewRouter script t ∧
+  ∀ r rs, (W script t).routers[r]? = some rs → RInvAt script t r rs
+
+/-- `Use` only on routers that exist -/
+def WFR (script : List Op) : Prop :=
+  ∀ t op, script[t]? = some op → ∀ r hs, selUse r op = some hs → r < 1 + cnt isNewRouter script t
+
+theorem foldl_register (l : List RouteRec) (x : RouterSt) :
+    l.foldl register x = { x with tree := x.tree ++ l.map fun rt => { rt with hs := x.mw ++ rt.hs } } := by
+  induction l generalizing x with
+  | nil => simp
+  | cons a l ih => rw [List.foldl_cons, ih]; simp [register]
+
+section
+variable (script : List Op) (t : Nat) (htl : t < script.length)
+include htl
+
+/-- a router the op does not touch -/
+theorem rinvAt_keep (r : Nat) (rs : RouterSt) (h : RInvAt script t r rs)
+    (hsel : selUse r script[t] = none) (hrec : ∀ rec0, routeRecOf (W script t) script[t] ≠ some (r, rec0)) :
+    RInvAt script (t + 1) r rs where
+  mw := by rw [h.mw, usesB_succ _ _ _ htl, hsel]; simp
+  pend := by
+    intro rec hr
+    obtain ⟨i, op, h1, h2, h3⟩ := h.pend rec hr
+    exact ⟨i, op, h1, by omega, h3⟩
+  tree := by
+    intro rec hr
+    obtain ⟨i, op, rec0, treg, h1, h2, h3, h4, h5, h6⟩ := h.tree rec hr
+    exact ⟨i, op, rec0, treg, h1, by omega, h3, by omega, h5, h6⟩
+  pres := by
+    intro i op rec0 h1 h2 h3 h4
+    rcases Nat.lt_or_ge i t with hlt | hge
+    · rcases h.pres i op rec0 h1 hlt h3 h4 with hp | ⟨treg, a, b, c⟩
+      · exact Or.inl hp
+      · exact Or.inr ⟨treg, a, by omega, c⟩
+    · have : i = t := by omega
+      subst this
+      rw [List.getElem?_eq_getElem htl] at h1
+      cases h1
+      exact (hrec rec0 h3).elim
+  warmed := h.warmed
+
+/-- `r.Use(hs...)` on this router -/
+theorem rinvAt_use (r : Nat) (rs : RouterSt) (h : RInvAt script t r rs) (hs : List Hid)
+    (hsel : selUse r script[t] = some hs) (hrec : routeRecOf (W script t) script[t] = none) :
+    RInvAt script (t + 1) r { rs with mw := rs.mw ++ hs } where
+  mw := by simp only []; rw [h.mw, usesB_succ _ _ _ htl, hsel]; rfl
+  pend := by
+    intro rec hr
+    obtain ⟨i, op, h1, h2, h3⟩ := h.pend rec hr
+    exact ⟨i, op, h1, by omega, h3⟩
+  tree := by
+    intro rec hr
+    obtain ⟨i, op, rec0, treg, h1, h2, h3, h4, h5, h6⟩ := h.tree rec hr
+    exact ⟨i, op, rec0, treg, h1, by omega, h3, by omega, h5, h6⟩
+  pres := by
+    intro i op rec0 h1 h2 h3 h4
+    rcases Nat.lt_or_ge i t with hlt | hge
+    · rcases h.pres i op rec0 h1 hlt h3 h4 with hp | ⟨treg, a, b, c⟩
+      · exact Or.inl hp
+      · exact Or.inr ⟨treg, a, by omega, c⟩
+    · have : i = t := by omega
+      subst this
+      rw [List.getElem?_eq_getElem htl] at h1
+      cases h1
+      rw [hrec] at h3; cases h3
+  warmed := h.warmed
+
+/-- `r.Warmup()` on this router -/
+theorem rinvAt_warm (r : Nat) (rs : RouterSt) (h : RInvAt script t r rs)
+    (hsel : selUse r script[t] = none) (hrec : routeRecOf (W script t) script[t] = none) :
+    RInvAt script (t + 1) r (warmup rs) := by
+  unfold warmup
+  by_cases hw : rs.warmed = true
+  · simp only [hw, if_true]
+    exact rinvAt_keep script t htl r rs h hsel (by intro rec0; rw [hrec]; simp)
+  · have hw' : rs.warmed = false := by simpa using hw
+    simp only [hw', Bool.false_eq_true, if_false]
+    rw [foldl_register]
+    have hk := rinvAt_keep script t htl r rs h hsel (by intro rec0; rw [hrec]; simp)
+    refine ⟨hk.mw, by simp, ?_, ?_, by simp⟩
+    · intro rec hr
+      simp only [List.mem_append, List.mem_map] at hr
+      rcases hr with hr | ⟨rt, hrt, rfl⟩
+      · exact hk.tree rec hr
+      · obtain ⟨i, op, h1, h2, h3⟩ := h.pend rt hrt
+        exact ⟨i, op, rt, t, h1, by omega, by omega, by omega, h3, by simp [regRec, h.mw]⟩
+    · intro i op rec0 h1 h2 h3 h4
+      rcases hk.pres i op rec0 h1 h2 h3 h4 with hp | ⟨treg, a, b, c⟩
+      · refine Or.inr ⟨t, ?_, by omega, ?_⟩
+        · obtain ⟨i', op', g1, g2, g3⟩ := h.pend rec0 hp
+          rcases Nat.lt_or_ge i t with hlt | hge
+          · omega
+          · have : i = t := by omega
+            subst this
+            rw [List.getElem?_eq_getElem htl] at h1
+            cases h1
+            rw [hrec] at h3; cases h3
+        · simp only [List.mem_append, List.mem_map]
+          exact Or.inr ⟨rec0, hp, by simp [regRec, h.mw]⟩
+      · exact Or.inr ⟨treg, a, b, by simp only [List.mem_append]; exact Or.inl c⟩
+
+/-- a route declared on this router -/
+theorem rinvAt_route (r : Nat) (rs : RouterSt) (h : RInvAt script t r rs) (rec : RouteRec)
+    (hsel : selUse r script[t] = none) (hrec : routeRecOf (W script t) script[t] = some (r, rec)) :
+    RInvAt script (t + 1) r (addRoute rs rec) := by
+  have hget : script[t]? = some script[t] := List.getElem?_eq_getElem htl
+  have hmw : usesB script (selUse r) (t + 1) = usesB script (selUse r) t := by
+    rw [usesB_succ _ _ _ htl, hsel]; simp
+  have hpres_old : ∀ i op rec0, script[i]? = some op → i < t + 1 →
+      routeRecOf (W script i) op = some (r, rec0) → r < (W script i).routers.length →
+      (i = t ∧ rec0 = rec) ∨ rec0 ∈ rs.pending ∨ ∃ treg, i ≤ treg ∧ treg ≤ t ∧ regRec script r treg rec0 ∈ rs.tree := by
+    intro i op rec0 h1 h2 h3 h4
+    rcases Nat.lt_or_ge i t with hlt | hge
+    · exact Or.inr (h.pres i op rec0 h1 hlt h3 h4)
+    · have : i = t := by omega
+      subst this
+      rw [hget] at h1
+      cases h1
+      rw [hrec] at h3
+      cases h3
+      exact Or.inl ⟨rfl, rfl⟩
+  unfold addRoute
+  by_cases hw : rs.warmed = true
+  · simp only [hw, if_true, register]
+    refine ⟨by simp only []; rw [h.mw, hmw], ?_, ?_, ?_, fun _ => by simpa using h.warmed hw⟩
+    · intro rc hr
+      have := h.warmed hw
+      simp [this] at hr
+    · intro rc hr
+      simp only [List.mem_append, List.mem_singleton] at hr
+      rcases hr with hr | rfl
+      · obtain ⟨i, op, rec0, treg, h1, h2, h3, h4, h5, h6⟩ := h.tree rc hr
+        exact ⟨i, op, rec0, treg, h1, by omega, h3, by omega, h5, h6⟩
+      · exact ⟨t, script[t], rec, t, hget, by omega, by omega, by omega, hrec, by simp [regRec, h.mw]⟩
+    · intro i op rec0 h1 h2 h3 h4
+      rcases hpres_old i op rec0 h1 h2 h3 h4 with ⟨rfl, rfl⟩ | hp | ⟨treg, a, b, c⟩
+      · exact Or.inr ⟨i, by omega, by omega, by simp [regRec, h.mw]⟩
+      · have := h.warmed hw
+        simp [this] at hp
+      · exact Or.inr ⟨treg, a, by omega, by simp only [List.mem_append]; exact Or.inl c⟩
+  · have hw' : rs.warmed = false := by simpa using hw
+    simp only [hw', Bool.false_eq_true, if_false]
+    refine ⟨by simp only []; rw [h.mw, hmw], ?_, ?_, ?_, fun hx => (hw hx).elim⟩
+    · intro rc hr
+      simp only [List.mem_append, List.mem_singleton] at hr
+      rcases hr with hr | rfl
+      · obtain ⟨i, op, h1, h2, h3⟩ := h.pend rc hr
+        exact ⟨i, op, h1, by omega, h3⟩
+      · exact ⟨t, script[t], hget, by omega, hrec⟩
+    · intro rc hr
+      obtain ⟨i, op, rec0, treg, h1, h2, h3, h4, h5, h6⟩ := h.tree rc hr
+      exact ⟨i, op, rec0, treg, h1, by omega, h3, by omega, h5, h6⟩
+    · intro i op rec0 h1 h2 h3 h4
+      rcases hpres_old i op rec0 h1 h2 h3 h4 with ⟨rfl, rfl⟩ | hp | ⟨treg, a, b, c⟩
+      · exact Or.inl (by simp)
+      · exact Or.inl (by simp only [List.mem_append]; exact Or.inl hp)
+      · exact Or.inr ⟨treg, a, by omega, c⟩
+
+end
 
 end Rivaas.Compose
